@@ -539,6 +539,20 @@ func (db *DB) ResetLocalState(ctx context.Context) error {
 
 	db.invalidatePosCache()
 
+	// If the database is already initialized (e.g. auto-recovery at run time),
+	// init() will not run again, so re-establish the baseline from the replica
+	// here. Otherwise the next sync would restart at TXID 1 while the replica
+	// is already ahead, and replica syncs would upload nothing and still
+	// report success.
+	db.mu.RLock()
+	initialized := db.db != nil
+	db.mu.RUnlock()
+	if initialized && db.Replica != nil && db.Replica.Client != nil {
+		if err := db.checkDatabaseBehindReplica(ctx); err != nil {
+			return fmt.Errorf("check database behind replica: %w", err)
+		}
+	}
+
 	db.Logger.Info("local state reset complete, next sync will create fresh snapshot")
 	return nil
 }
